@@ -36,6 +36,7 @@ OBLIGATIONS = [
     (P + "wrong_key_or_algo", "under Unforgeable: a cookie whose cipher text was not MAC'ed under this key/algorithm is rejected and cleared"),
     (P + "rejects_cleanly_hmac", "end to end (hmac): for EVERY cookie string: no UB, rejection clears, success does not"),
     (P + "rejects_cleanly_aes", "end to end (aes): for EVERY cookie string and IV state: no UB, rejection clears, success does not"),
+    (P + "aes_factory_keys", "aes_factory(algo,key): split exactly at the CBC key size (disjoint segments) or both keys derived by HMAC over two DIFFERENT labels; other lengths refused"),
     (P + "judge_generic", "the run-time judge Spec.judgeLoad holds of the model's answer for EVERY cookie and clock, for any encryptor meeting (N)(S)(I), under Unforgeable"),
     (P + "judge_holds_hmac", "judge_generic instantiated: hmac back-end, issued = cipher texts of any list of earlier saves"),
     (P + "judge_holds_aes", "judge_generic instantiated: aes back-end, issued = cipher texts of any earlier saves under any IVs, loading object in any IV state"),
@@ -362,6 +363,13 @@ def gen_stage_b(c, cfgs, issued, scale):
                 continue
             it = by_cfg[cj][0]
             add(f"load {oid} {it['now']} {hexs(it['cookie'])}", {"op": "load", "cfg": ci, "now": it["now"], "cookie": it["cookie"], "mut": "transplant"})
+        if ci in (0, 7):
+            # every cookie string of length 0..1, every 'C'+byte, (thorough: every string of length 2)
+            tiny = [b""] + [bytes([a]) for a in range(256)] + [b"C" + bytes([a]) for a in range(256)]
+            if c.tier == "thorough":
+                tiny += [bytes([a, b]) for a in range(256) for b in range(256)]
+            for ck in tiny:
+                add(f"load {oid} 1000 {hexs(ck)}", {"op": "load", "cfg": ci, "now": 1000, "cookie": ck, "mut": "tiny"})
         for tag, ck in random_cookies(rng, 25 * scale):
             add(f"load {oid} 1000 {hexs(ck)}", {"op": "load", "cfg": ci, "now": 1000, "cookie": ck, "mut": tag})
     return lines, desc
